@@ -328,6 +328,277 @@ def run_impl(case, step_split=None, seed=1, overrides=None):
 
 
 # ------------------------------------------------------------------------------------------------
+# lifecycle of ONE network object: build -> simulate -> edit attributes / topology (through the public API) -> simulate again ...
+# A lifecycle case is a single-product case (stage 0) plus c['stages'] = [{ops, T, how, ntr, copy}]; the ops of a stage are applied to the
+# live object (apply_ops_net) and, independently, to the case (apply_ops_case) from which the twin network of that stage is built afresh.
+#   ['set', i, a, x]                  attribute a (key of LEVEL_ATTRS, or 'dis') of node i becomes x, at the level (node / product / (node, product)) it is given on
+#   ['add-sink', i, j, v, keep]       new node j (node data v) becomes a successor of i; i keeps its external demand iff keep
+#   ['add-source', i, j, v, keep]     new node j becomes the predecessor of source node i; i keeps its external supplier iff keep
+#   ['remove', i, fix]                node i (one neighbour) is removed; a predecessor left without customers gets the demand list fix['demand']
+
+SET_ATTRS = ['slt', 'olt', 'h', 'p', 'ith', 'rev', 'cap', 'init_il', 'pol', 'demand', 'dis', 'init_orders', 'init_ships']
+
+
+def preds_of(case, i): return [a for a, b in case['edges'] if b == i]
+def succs_of(case, i): return [b for a, b in case['edges'] if a == i]
+
+
+def excluded_class(case):
+    """True if the case lies in an input class the generators keep away from: the defect classes of gen_levels (1)-(3), an echelon
+    base-stock policy above an explicit product, or an echelon average that is not exact in binary64 (gen_case)"""
+    nd = case['nodes']
+    for i, v in nd.items():
+        preds = preds_of(case, i); lvl = v.get('lvl') or {}
+        if v['pol'][0] == 'EBS':
+            if len(preds) + (1 if (not preds or v.get('ext')) else 0) not in (1, 2, 4): return True
+            if not INCLUDE_DEFECT_CLASSES:
+                stack = [i]; seen = set()
+                while stack:
+                    k = stack.pop()
+                    if k in seen: continue
+                    seen.add(k); stack += succs_of(case, k)
+                    if nd[k].get('prod') is not None: return True
+        if v.get('ext') and (v.get('prod') is None or not preds): return True       # (build_impl sets the supply type before the product is added)
+        if INCLUDE_DEFECT_CLASSES: continue
+        if lvl.get('slt') == 'dict' or lvl.get('olt') == 'dict': return True
+        olt_slots = v['olt'] > 0 and v['init_orders'] > 0 and (not preds or bool(v.get('ext')))
+        if (lvl.get('slt') == 'product' and v['slt'] > 0 and (v['init_ships'] > 0 or olt_slots)) or (lvl.get('olt') == 'product' and olt_slots): return True
+        if preds and v['olt'] > 0 and lvl.get('init_orders'): return True
+    return False
+
+
+def gen_policy(rng, pols):
+    pt = rng.choice(pols)
+    if pt == 'BS': return ['BS', rng.randint(0, 25)]
+    if pt == 'sS':
+        s_ = rng.randint(0, 12); return ['sS', s_, s_ + rng.randint(0, 15)]
+    if pt == 'rQ': return ['rQ', rng.randint(0, 12), rng.randint(1, 15)]
+    if pt == 'FQ': return ['FQ', rng.randint(0, 8)]
+    return ['EBS', rng.randint(0, 40)]
+
+
+def gen_value(rng, a, T, pols, olt_max=2, slt_max=3):
+    """a fresh value of attribute a, from the ranges of gen_case"""
+    if a == 'slt': return rng.randint(0, slt_max)
+    if a == 'olt': return rng.randint(0, olt_max)
+    if a == 'h': return Fraction(rng.randint(0, 12), 4)
+    if a == 'p': return Fraction(rng.randint(0, 80), 4)
+    if a == 'ith': return rng.choice([None, Fraction(0), Fraction(rng.randint(1, 8), 4), Fraction(rng.randint(1, 8), 4)])
+    if a == 'rev': return Fraction(rng.randint(0, 8), 4)
+    if a == 'cap': return rng.choice([None, rng.randint(1, 12), rng.randint(1, 12)])
+    if a == 'init_il': return rng.choice([None, rng.randint(0, 20), rng.randint(0, 20)])
+    if a == 'pol': return gen_policy(rng, pols)
+    if a == 'demand': return [rng.choice([0, 1, 2, 3, 5, 8, 13]) for _ in range(rng.choice([1, 2, 3, T, T + 3]))]
+    if a == 'dis': return None if rng.random() < 0.3 else [rng.choice(DTYPES), [rng.random() < 0.4 for _ in range(rng.choice([2, 3, 5, T]))]]
+    if a == 'init_orders': return rng.choice([0, 1, 3])
+    if a == 'init_ships': return rng.choice([0, 2, 4])
+    if a == 'hf': return None if rng.random() < 0.3 else [Fraction(rng.randint(0, 12), 4), Fraction(rng.choice([0, 0, 1, 2]), 4)]
+    if a == 'pf': return None if rng.random() < 0.3 else [Fraction(rng.randint(0, 40), 4), Fraction(rng.choice([0, 0, 1, 2]), 4)]
+    raise ValueError(a)
+
+
+def gen_node(rng, T, has_dem, pols, olt_max=2, slt_max=3):
+    """node data of a node added to an existing network (ranges of gen_case)"""
+    g = lambda a: gen_value(rng, a, T, pols, olt_max, slt_max)
+    return dict(slt=g('slt'), olt=(g('olt') if rng.random() < 0.6 else 0), pol=g('pol'), cap=(rng.randint(1, 12) if rng.random() < 0.3 else None),
+                init_il=(rng.randint(0, 20) if rng.random() < 0.5 else None), h=g('h'), p=(g('p') if has_dem or rng.random() < .3 else Fraction(0)),
+                ith=rng.choice([None, None, Fraction(0), Fraction(rng.randint(1, 8), 4)]), rev=(g('rev') if rng.random() < 0.3 else Fraction(0)),
+                demand=(g('demand') if has_dem else None), dis=(g('dis') if rng.random() < 0.4 else None), init_orders=rng.choice([0, 0, 1, 3]), init_ships=rng.choice([0, 0, 2, 4]))
+
+
+def apply_ops_case(case, ops):
+    """the case after the edits (a new case; None if an edit does not apply)"""
+    c = copy.deepcopy(case); nd = c['nodes']
+    for op in ops:
+        if op[0] == 'set':
+            _, i, a, x = op
+            if i not in nd: return None
+            nd[i][a] = copy.deepcopy(x)
+        elif op[0] == 'add-sink':
+            _, i, j, v, keep = op
+            if i not in nd or j in nd: return None
+            c['ids'].append(j); c['edges'].append([i, j]); nd[j] = copy.deepcopy(v)
+            if not keep: nd[i]['demand'] = None
+        elif op[0] == 'add-source':
+            _, i, j, v, keep = op
+            if i not in nd or j in nd or preds_of(c, i): return None
+            c['ids'].append(j); c['edges'].append([j, i]); nd[j] = copy.deepcopy(v)
+            if keep: nd[i]['ext'] = True
+            else: nd[i].pop('ext', None)
+        elif op[0] == 'remove':
+            _, i, fix = op
+            nb = preds_of(c, i) + succs_of(c, i)
+            if i not in nd or len(nb) != 1 or any(i in (v.get('bom') or []) for v in nd.values()): return None
+            c['ids'].remove(i); del nd[i]; c['edges'] = [e for e in c['edges'] if i not in e]
+            k = nb[0]
+            if not preds_of(c, k): nd[k].pop('ext', None)        # now supplied by the external supplier alone
+            if not succs_of(c, k) and nd[k]['demand'] is None: nd[k]['demand'] = list(fix['demand'])
+        else:
+            raise ValueError(op)
+    c['kind'] = case['kind'] if not any(op[0] != 'set' for op in ops) else 'edited'
+    return c
+
+
+def lib_value(a, x, **kw):
+    """the library value of attribute a (key of LEVEL_ATTRS or 'dis') for the case value x"""
+    from stockpyl.policy import Policy
+    from stockpyl.demand_source import DemandSource
+    from stockpyl.disruption_process import DisruptionProcess
+    if a in ('h', 'p', 'rev'): return float(x)
+    if a == 'ith': return None if x is None else float(x)
+    if a == 'pol':
+        if x[0] == 'BS': return Policy(type='BS', base_stock_level=x[1], **kw)
+        if x[0] == 'sS': return Policy(type='sS', reorder_point=x[1], order_up_to_level=x[2], **kw)
+        if x[0] == 'rQ': return Policy(type='rQ', reorder_point=x[1], order_quantity=x[2], **kw)
+        if x[0] == 'FQ': return Policy(type='FQ', order_quantity=x[1], **kw)
+        if x[0] == 'EBS': return Policy(type='EBS', base_stock_level=x[1], **kw)
+        raise ValueError(x)
+    if a == 'demand': return DemandSource(type='D', demand_list=list(x)) if x is not None else DemandSource()
+    if a == 'dis': return DisruptionProcess(random_process_type='E', disruption_type=x[0], disruption_state_list=list(x[1])) if x else DisruptionProcess()
+    if a == 'hf': return cost_fn(x) if x else None
+    if a == 'pf': return cost_fn(x, stockout=True) if x else None
+    return x
+
+
+def set_live_attr(net, v, i, a, x):
+    """node i of the live network gets value x for attribute a, through the public attributes, at the level the case gives the attribute on
+    (v = node data of the case; mirrors what build_impl does for a freshly built network, incl. the decoy value on the product)"""
+    n = net.nodes_by_index[i]
+    if a == 'dis':
+        n.disruption_process = lib_value('dis', x); return
+    name = LEVEL_ATTRS[a]; pk = v.get('prod'); w = (v.get('lvl') or {}).get(a, 'node') if pk is not None else 'node'
+    prod = n.products_by_index[pk] if pk is not None else None
+    plain = a not in ('pol', 'demand', 'hf', 'pf')
+    def decoy():
+        if prod is not None and v.get('decoy') and plain:
+            X = lib_value(a, x)
+            setattr(prod, name, None if X is None else ((X + 1 + (i % 3)) if a in ('slt', 'olt') else X + 3))
+    if w == 'node':
+        setattr(n, name, lib_value(a, x, node=n) if a == 'pol' else lib_value(a, x)); decoy()
+    elif w == 'product':
+        setattr(n, name, None); setattr(prod, name, lib_value(a, x, node=n, product=prod) if a == 'pol' else lib_value(a, x))
+    else:
+        setattr(n, name, {pk: (lib_value(a, x, node=n, product=prod) if a == 'pol' else lib_value(a, x))}); decoy()
+
+
+def new_live_node(j, v, external_supplier):
+    """a SupplyChainNode carrying the node data v, with the attributes network_from_edges would give it"""
+    from stockpyl.supply_chain_node import SupplyChainNode
+    n = SupplyChainNode(index=j)
+    for a, name in LEVEL_ATTRS.items():
+        if a in ('pol', 'hf', 'pf'): continue
+        setattr(n, name, lib_value(a, v.get(a)))
+    n.inventory_policy = lib_value('pol', v['pol'], node=n)
+    n.disruption_process = lib_value('dis', v['dis'])
+    n.supply_type = 'U' if external_supplier else None
+    return n
+
+
+def apply_ops_net(net, case, ops):
+    """apply the edits to the LIVE network object (case = the case before the edits)"""
+    from stockpyl.demand_source import DemandSource
+    cur = case
+    for op in ops:
+        nxt = apply_ops_case(cur, [op])
+        if op[0] == 'set':
+            set_live_attr(net, nxt['nodes'][op[1]], op[1], op[2], op[3])
+        elif op[0] == 'add-sink':
+            _, i, j, v, keep = op
+            net.add_successor(net.nodes_by_index[i], new_live_node(j, v, False))
+            if cur['nodes'][i]['demand'] is not None and not keep: set_live_attr(net, nxt['nodes'][i], i, 'demand', None)
+        elif op[0] == 'add-source':
+            _, i, j, v, keep = op
+            if not keep: net.nodes_by_index[i].supply_type = None
+            net.add_predecessor(net.nodes_by_index[i], new_live_node(j, v, True))
+        elif op[0] == 'remove':
+            _, i, fix = op
+            k = (preds_of(cur, i) + succs_of(cur, i))[0]
+            if not preds_of(nxt, k): net.nodes_by_index[k].supply_type = 'U'       # before the removal, which rebuilds the network bill of materials
+            net.remove_node(net.nodes_by_index[i])
+            if cur['nodes'][k]['demand'] is None and nxt['nodes'][k]['demand'] is not None:
+                set_live_attr(net, nxt['nodes'][k], k, 'demand', nxt['nodes'][k]['demand'])
+        cur = nxt
+    return cur
+
+
+def gen_ops(rng, case, T, attrs, p_topology=0.2, pols=None, olt_max=2, slt_max=3, nmax=8):
+    """0-3 edits that apply to `case` and keep it inside the generators' envelope; `attrs` = the attributes to draw 'set' edits from (with multiplicity)"""
+    pols = pols or POL_TYPES
+    ops = []; cur = case
+    for _ in range(rng.choice([0, 1, 1, 2, 2, 3])):
+        for attempt in range(10):
+            ids = cur['ids']; nd = cur['nodes']
+            if rng.random() < p_topology:
+                kind = rng.choice(['add-sink', 'add-sink', 'add-source', 'remove'])
+                free = [j for j in range(0, 60) if j not in nd]
+                if kind == 'add-sink' and len(ids) < nmax:
+                    # below a sink (the chain gets longer) or below any node (the node gets one more customer)
+                    i = rng.choice([k for k in ids if not succs_of(cur, k)] if rng.random() < 0.6 else ids)
+                    keep = nd[i]['demand'] is not None and (rng.random() < 0.3 or (nd[i].get('lvl') or {}).get('demand', 'node') != 'node')
+                    op = ['add-sink', i, rng.choice(free), gen_node(rng, T, True, pols, olt_max, slt_max), keep]
+                elif kind == 'add-source' and len(ids) < nmax:
+                    i = rng.choice([k for k in ids if not preds_of(cur, k)])
+                    op = ['add-source', i, rng.choice(free), gen_node(rng, T, rng.random() < 0.25, pols, olt_max, slt_max), nd[i].get('prod') is not None and rng.random() < 0.3]
+                elif kind == 'remove' and len(ids) > 1:
+                    cand = [k for k in ids if len(preds_of(cur, k)) + len(succs_of(cur, k)) == 1]
+                    if not cand: continue
+                    op = ['remove', rng.choice(cand), dict(demand=gen_value(rng, 'demand', T, pols))]
+                else: continue
+            else:
+                i = rng.choice(ids); a = rng.choice(attrs)
+                if a == 'demand' and nd[i]['demand'] is None: continue
+                x = gen_value(rng, a, T, pols, olt_max, slt_max)
+                if x == nd[i].get(a): continue
+                op = ['set', i, a, x]
+            nxt = apply_ops_case(cur, [op])
+            if nxt is None or excluded_class(nxt): continue
+            ops.append(op); cur = nxt
+            break
+    return ops, cur
+
+
+def ops_from_json(ops):
+    def node(v):
+        v = dict(v)
+        for f in ('h', 'p', 'rev'): v[f] = Fraction(v[f])
+        if v['ith'] is not None: v['ith'] = Fraction(v['ith'])
+        return v
+    out = []
+    for op in ops:
+        op = list(op)
+        if op[0] == 'set':
+            if op[2] in ('h', 'p', 'rev') or (op[2] == 'ith' and op[3] is not None): op[3] = Fraction(op[3])
+            if op[2] in ('hf', 'pf') and op[3]: op[3] = [Fraction(x) for x in op[3]]
+        elif op[0] in ('add-sink', 'add-source'): op[3] = node(op[3])
+        out.append(op)
+    return out
+
+
+def run_live(net, T, how='simulation', ntr=1, seed=1):
+    """simulate the given network OBJECT: simulation() | initialize(); step() x T; close() | run_multiple_trials(ntr trials; the object then
+    holds the last trial).  Returns dict(recs, total, struct, net[, mean, sem])."""
+    import stockpyl.sim as sim
+    import warnings
+    out = {}
+    with warnings.catch_warnings():
+        warnings.simplefilter('ignore')
+        if how == 'steps':
+            sim.issued_backorder_warning = False
+            sim.initialize(net, T, rand_seed=seed)
+            for t in range(T): sim.step(net, consistency_checks='N')
+            total = sim.close(net)
+        elif how == 'trials':
+            sim.issued_backorder_warning = True        # silence the one-off consistency warning of the default mode
+            out['mean'], out['sem'] = sim.run_multiple_trials(net, ntr, T, rand_seed=seed, progress_bar=False)
+            total = sum(float(sv.total_cost_incurred) for n in net.nodes for sv in n.state_vars)
+        else:
+            sim.issued_backorder_warning = False
+            total = sim.simulation(net, T, rand_seed=seed, progress_bar=False, consistency_checks='N')
+    out.update(recs=extract_records(net, T), total=F(total), struct=structure(net), net=net)
+    return out
+
+
+# ------------------------------------------------------------------------------------------------
 # model
 
 def cN(i):
